@@ -67,14 +67,14 @@ fn headers_case(code: u16, nh: usize) {
     }
 }
 
-// @harness name=c20_headers_200_two props=C20 tier=quick timeout=900 rmbody=ioerr
+// @harness name=c20_headers_200_two props=C20 tier=quick timeout=2400 rmbody=ioerr
 // @bound status 200 (canonical reason), two headers with names/values of 0..3 symbolic bytes, destination capacity 0..64
 // @functions cgi::response::write_headers
 #[kani::proof]
 #[kani::unwind(66)]
 fn c20_headers_200_two() { headers_case(200, 2); }
 
-// @harness name=c20_headers_custom_one props=C20 tier=quick timeout=900 rmbody=ioerr
+// @harness name=c20_headers_custom_one props=C20 tier=quick timeout=2400 rmbody=ioerr
 // @bound status 999 (no canonical reason -> `Custom`), one header with name/value of 0..3 symbolic bytes, destination capacity 0..64
 // @functions cgi::response::write_headers
 #[kani::proof]
